@@ -477,6 +477,15 @@ func (e *Exec) oblige(st *State, kind, anchor string, props []string, clause str
 	if pos.IsValid() {
 		in.Pos = e.prog.Fset.Position(pos)
 	}
+	if e.fc != nil && len(e.fc.Witness) > 0 && goal != "true" {
+		in.Witness = map[string][]string{}
+		for _, w := range e.fc.Witness {
+			ctx := &evalCtx{st: st, fr: st.frames[0], scope: map[string]Val{}, entryScope: e.entryParams(), paramsFirst: true, inOld: true}
+			if v, err := e.evalTop(ctx, w.E, nil); err == nil && !strings.Contains(strings.Join(v.T, " "), "|q:") {
+				in.Witness[w.Name] = v.T
+			}
+		}
+	}
 	e.insts = append(e.insts, in)
 }
 
